@@ -34,6 +34,9 @@ class ModelSpec:
         self.formulas = [a for a, v in cells.items()
                          if isinstance(v, str) and v.startswith('=')]
         self.all_cells = list(cells)
+        # True: no reference arithmetic; the value of a cell evaluated alone
+        # on a fresh model is the reference (C05 only)
+        self.differential = False
         # cells that schedules may evaluate (default: all of them)
         self.eval_cells = list(eval_cells) if eval_cells else list(cells)
 
@@ -196,6 +199,37 @@ def branch():
          D1: lambda g: g(C1) + 1})
 
 
+def othersheet():
+    """read_and_parse_dict with formulas on a sheet that is not the default
+    one, an unqualified range with a hole (A2 is not a cell of the model) and
+    a second formula reading the hole directly.  What the dict reader makes
+    of the unqualified range is not judged here (C03 refuses it); only that
+    evaluation does not depend on order, repetition or evaluator and does not
+    add cells."""
+    cells = {'Data!A1': 1, 'Data!A3': 3, 'Data!B1': '=SUM(A1:A3)',
+             'Data!B2': '=A2+1', 'Data!B3': '=B1+B2'}
+    spec = ModelSpec('othersheet', cells, ['Data!A1'], [0, 5], {})
+    spec.differential = True
+    return spec
+
+
+def typed():
+    """An input that switches between a number and the logical that is ==
+    to it in Python (1 / TRUE, 0 / FALSE); the formulas tell them apart."""
+    A1, B1, C1, D1 = (S + x for x in ('A1', 'B1', 'C1', 'D1'))
+
+    def isnum(v):
+        return isinstance(v, (int, float)) and not isinstance(v, bool)
+    return ModelSpec(
+        'typed',
+        {A1: 1, B1: '=ISNUMBER(A1)', C1: '=IF(ISNUMBER(A1),A1+1,-1)',
+         D1: '=C1*2'},
+        [A1], [True, 0, False, 1],
+        {B1: lambda g: isnum(g(A1)),
+         C1: lambda g: g(A1) + 1 if isnum(g(A1)) else -1,
+         D1: lambda g: g(C1) * 2})
+
+
 def errrange():
     """An error value inside a summed range that comes and goes with an
     input; the error is inspected two levels up."""
@@ -234,8 +268,8 @@ def lookup():
 
 
 ALL = [chain, diamond, sumrange, formularange, crosssheet, textmodel, named,
-       branch, lookup, errrange]
-ALL_C05 = ALL + [twodim, longrange]
+       branch, lookup, errrange, typed]
+ALL_C05 = ALL + [twodim, longrange, othersheet]
 
 
 def by_name(name):
